@@ -55,22 +55,33 @@ Inductive authv := ACaller (t : N) | AUrl (t : N).
 
 Definition ck := (N * N)%type.        (* cookie name, value *)
 
-(* cookie jar, reduced to what the redirect loop needs: host-only cookies (host, name, value);
-   scoping proper is C16's subject *)
-Definition jar := list (N * N * N).
+(* cookie jar, reduced to what the redirect loop needs: host-only cookies (host, name, value, path
+   scope).  A scope `Some p` is a cookie whose Path attribute is exactly the path p (it is selected
+   only for requests to that path); `None` is Path=/.  Scoping proper is C16's subject; the path
+   scope is here because it makes the selection differ between two hops on the SAME origin. *)
+Definition jent := (N * N * N * option N)%type.
+Definition jar := list jent.
+Definition je_host (e : jent) : N := fst (fst (fst e)).
+Definition je_name (e : jent) : N := snd (fst (fst e)).
+Definition je_val (e : jent) : N := snd (fst e).
+Definition je_scope (e : jent) : option N := snd e.
 
+(* Set-Cookie without attributes from a response of host h: replaces the (h, name) entry *)
 Fixpoint jar_set (j : jar) (h n v : N) : jar :=
   match j with
-  | [] => [(h, n, v)]
-  | (h', n', v') :: j' =>
-      if (h =? h') && (n =? n') then (h, n, v) :: j' else (h', n', v') :: jar_set j' h n v
+  | [] => [(h, n, v, None)]
+  | e :: j' =>
+      if (h =? je_host e) && (n =? je_name e) then (h, n, v, None) :: j' else e :: jar_set j' h n v
   end.
 
 Definition jar_update (j : jar) (h : N) (cks : list ck) : jar :=
   fold_left (fun j p => jar_set j h (fst p) (snd p)) cks j.
 
-Definition jar_filter (j : jar) (h : N) : list ck :=
-  map (fun e => (snd (fst e), snd e)) (filter (fun e => fst (fst e) =? h) j).
+Definition scope_matches (sc : option N) (path : N) : bool :=
+  match sc with None => true | Some p => p =? path end.
+
+Definition jar_filter (j : jar) (h path : N) : list ck :=
+  map (fun e => (je_name e, je_val e)) (filter (fun e => (je_host e =? h) && scope_matches (je_scope e) path) j).
 
 (* what the caller passes to session.request(...) *)
 Record request := {
@@ -125,7 +136,9 @@ Inductive location :=
 | LRel (path : N)                        (* no scheme, no authority *)
 | LSchemeRel (host : N) (port : option N) (path : N).
 
-Record response := { rs_status : N; rs_setcookie : list ck; rs_loc : location }.
+(* rs_unsent: the response arrived before any byte of the request body had been written (the
+   client was waiting for `100 Continue`), so a one-shot body is still unconsumed *)
+Record response := { rs_status : N; rs_setcookie : list ck; rs_loc : location; rs_unsent : bool }.
 
 (* ---- loop state ------------------------------------------------------------------------ *)
 
@@ -184,7 +197,7 @@ Definition sent_of (st : rstate) : sent :=
   let u := r_url st in
   {| s_org := u_org u; s_path := u_path u; s_urlcred := u_cred u; s_meth := r_meth st;
      s_auth := auth_for st; s_hdrcookie := r_cookie st; s_pauth := r_pauth st; s_reqck := r_reqck st;
-     s_jar := jar_filter (r_jar st) (o_host (u_org u)); s_body := r_body st; s_clen := r_clen st |}.
+     s_jar := jar_filter (r_jar st) (o_host (u_org u)) (u_path u); s_body := r_body st; s_clen := r_clen st |}.
 
 (* loop variables after the request has been built: URL stripped, Authorization stored in `headers` *)
 Definition stripped (st : rstate) : rstate :=
@@ -239,7 +252,7 @@ Definition next_state (st : rstate) (s : sent) (r : response) (target : url) : r
 Definition after (c : config) (st : rstate) (s : sent) (r : response) : step_result :=
   if follow_redirect (rs_status r) (c_allow c) then
     if too_many_redirects (r_redirects st + 1)%Z (c_max c) then Stop (Failed ETooManyRedirects (hist_add st s r)) DClosed
-    else if negb (toget_of s r) && consumed_after_send (s_body s) then Stop (Failed EPayloadConsumed (hist_add st s r)) DClosed
+    else if negb (toget_of s r) && consumed_after_send (s_body s) && negb (rs_unsent r) then Stop (Failed EPayloadConsumed (hist_add st s r)) DClosed
     else
       match resolve (s_org s) (rs_loc r) with
       | inl e => Stop (Failed e (hist_add st s r)) DClosed
@@ -312,12 +325,12 @@ Definition ex_B : origin := {| o_sch := 0; o_host := 1; o_port := None |}.
 Definition ex_q : request :=
   {| q_meth := MPost; q_url := {| u_org := ex_A; u_cred := None; u_path := 0 |};
      q_auth := Some 1; q_cookie := Some [(1, 101)]; q_pauth := Some 2; q_reqck := Some [(2, 201)];
-     q_body := BReplay 1; q_clen := false; q_jar := [(0, 3, 301); (1, 4, 302)] |}.
+     q_body := BReplay 1; q_clen := false; q_jar := [(0, 3, 301, None); (1, 4, 302, None); (0, 8, 308, Some 1)] |}.
 Definition ex_c : config := {| c_max := 10; c_allow := true |}.
 (* A -307-> A/p1 -302-> u7:p7@B/p2 -301-> A/p3 -> 200 *)
 Definition ex_resps : list response :=
-  [ {| rs_status := 307; rs_setcookie := [(5, 401)]; rs_loc := LRel 1 |};
-    {| rs_status := 302; rs_setcookie := []; rs_loc := LAbs {| u_org := ex_B; u_cred := Some 7; u_path := 2 |} |};
-    {| rs_status := 301; rs_setcookie := []; rs_loc := LAbs {| u_org := ex_A; u_cred := None; u_path := 3 |} |};
-    {| rs_status := 200; rs_setcookie := []; rs_loc := LNone |} ].
+  [ {| rs_status := 307; rs_setcookie := [(5, 401)]; rs_loc := LRel 1; rs_unsent := false |};
+    {| rs_status := 302; rs_setcookie := []; rs_loc := LAbs {| u_org := ex_B; u_cred := Some 7; u_path := 2 |}; rs_unsent := false |};
+    {| rs_status := 301; rs_setcookie := []; rs_loc := LAbs {| u_org := ex_A; u_cred := None; u_path := 3 |}; rs_unsent := false |};
+    {| rs_status := 200; rs_setcookie := []; rs_loc := LNone; rs_unsent := false |} ].
 
